@@ -853,8 +853,13 @@ def run(ctx: Ctx) -> None:
     tpl = templates()
     if not ctx.deep:
         must = [t for t in tpl if t[0].startswith('yield:')]
-        rest = [t for t in tpl if not t[0].startswith('yield:')]
-        tpl = must + ctx.rng.sample(rest, 30)
+        # late / after-dump failures of every command kind (incl. --wipe and the regeneration after a corrupt
+        # coredata.dat): two option kinds per clause, drawn by the seed
+        late_clauses = sorted({t[0] for t in tpl if t[0].startswith('fail-') or 'regenerate' in t[0]})
+        for cl_ in late_clauses:
+            must += ctx.rng.sample([t for t in tpl if t[0] == cl_], 2)
+        rest = [t for t in tpl if t not in must]
+        tpl = must + ctx.rng.sample(rest, 20)
     elif cap:
         must = [t for t in tpl if t[0].startswith('yield:')]
         tpl = must + ctx.rng.sample([t for t in tpl if not t[0].startswith('yield:')], min(cap, 60))
@@ -862,7 +867,7 @@ def run(ctx: Ctx) -> None:
     if ctx.deep and not cap:
         run_batch(ctx, [pad(ctx.rng, t[3]) for t in tpl], 'templates-padded', [f'{t[0]}:{t[1]}:{t[2]}' for t in tpl])
     ctx.extra['template_cells'] = sorted({f'{t[0]}:{t[1]}:{t[2]}' for t in tpl})
-    n = ctx.scale(50, 1500)
+    n = ctx.scale(40, 1500)
     if cap and ctx.deep:
         n = min(n, cap)
     run_batch(ctx, [rand_history(ctx.rng) for _ in range(n)], 'random')
